@@ -170,6 +170,9 @@ func tokenSource(L ssa.Value, seen map[ssa.Value]bool) (fields map[string]bool, 
 			return
 		}
 		switch x := v.(type) {
+		case *ssa.ChangeType:
+			// a field of a named list type handed on as a plain []string
+			walkText(x.X, d+1)
 		case *ssa.Phi:
 			for _, e := range x.Edges {
 				walkText(e, d+1)
@@ -213,6 +216,38 @@ func tokenSource(L ssa.Value, seen map[ssa.Value]bool) (fields map[string]bool, 
 			if ssau.CallName(x) == tokenizerFn {
 				walkText(x.Common().Args[0], 0)
 				return
+			}
+			// a tokenizing helper of the repository: every result is nil or the
+			// tokenizer applied to text made of its own parameters
+			if g := x.Common().StaticCallee(); g != nil && g.Blocks != nil && g.Signature.Results().Len() == 1 && d < 6 {
+				rets := ssau.ReturnsOf(g)
+				good := len(rets) > 0
+				for _, ret := range rets {
+					rv := ssau.ResultValue(ret, 0)
+					if ssau.IsNilConst(rv) {
+						continue
+					}
+					tc, isCall := rv.(*ssa.Call)
+					if !isCall || ssau.CallName(tc) != tokenizerFn {
+						good = false
+						break
+					}
+					ps, pok := c03TextParams(tc.Common().Args[0], 0)
+					if !pok {
+						good = false
+						break
+					}
+					for _, pp := range ps {
+						for i, q := range g.Params {
+							if q == pp && i < len(x.Common().Args) {
+								walkText(x.Common().Args[i], 0)
+							}
+						}
+					}
+				}
+				if good {
+					return
+				}
 			}
 			ok = false
 		case *ssa.Slice:
@@ -368,10 +403,24 @@ func c03IndexCommand(c *Ctx, sx *symx.Ctx, F []string) {
 			return
 		}
 		li, pi := c03CountsThroughPick(cal)
+		args := call.Common().Args
 		if li < 0 {
+			// ... or hands the entry to a function that increments one field
+			bl, bi := c03CountsThroughBump(cal)
+			if bl < 0 {
+				return
+			}
+			tag := c03BumpedField(args[bi])
+			if tag == "" {
+				r.Bad("O-2", fk+"#bump-function", c.P.Pos(call.Pos()), "the function passed to the counting helper does something else than incrementing one fieldTF field of its argument")
+				return
+			}
+			if prev, dup := tagList[tag]; dup && prev != args[bl] {
+				r.Bad("O-2", fk+"#tag:"+tag+":once", c.P.Pos(call.Pos()), "two different token lists are counted under the field "+tag)
+			}
+			tagList[tag] = args[bl]
 			return
 		}
-		args := call.Common().Args
 		tag := c03PickedField(args[pi])
 		if tag == "" {
 			r.Bad("O-2", fk+"#pick-function", c.P.Pos(call.Pos()), "the field-selecting function passed to the counting helper does not return the address of one fieldTF field of its argument")
@@ -1671,6 +1720,158 @@ func c03CountsThroughPick(fn *ssa.Function) (li, pi int) {
 		})
 	}
 	return
+}
+
+// c03TextParams: the text v is made of parameters of its function only
+// (a parameter, strings.Join of one, a choice among them); the parameters.
+func c03TextParams(v ssa.Value, d int) ([]*ssa.Parameter, bool) {
+	if d > 5 {
+		return nil, false
+	}
+	switch x := v.(type) {
+	case *ssa.Parameter:
+		return []*ssa.Parameter{x}, true
+	case *ssa.ChangeType:
+		return c03TextParams(x.X, d+1)
+	case *ssa.Phi:
+		var out []*ssa.Parameter
+		for _, e := range x.Edges {
+			ps, ok := c03TextParams(e, d+1)
+			if !ok {
+				return nil, false
+			}
+			out = append(out, ps...)
+		}
+		return out, true
+	case *ssa.Call:
+		if ssau.CallName(x) == "strings.Join" {
+			return c03TextParams(x.Common().Args[0], d+1)
+		}
+		if idx := c03ChoosesAmongParams(x.Common().StaticCallee()); len(idx) > 0 {
+			var out []*ssa.Parameter
+			for _, i := range idx {
+				ps, ok := c03TextParams(x.Common().Args[i], d+1)
+				if !ok {
+					return nil, false
+				}
+				out = append(out, ps...)
+			}
+			return out, true
+		}
+	}
+	return nil, false
+}
+
+// c03CountsThroughBump: fn ranges over its list parameter #li and, per
+// element, reads the entry of a map of fieldTF under the element, hands its
+// address to the function parameter #bi and stores the entry back under the
+// same element: countTokens(m, tokens, func(tf *fieldTF) { tf.cmd++ }).
+func c03CountsThroughBump(fn *ssa.Function) (li, bi int) {
+	li, bi = -1, -1
+	paramIdx := func(v ssa.Value) int {
+		for i, p := range fn.Params {
+			if ssa.Value(p) == v {
+				return i
+			}
+		}
+		return -1
+	}
+	for _, l := range ssau.RangeLoops(fn) {
+		if l.IsMap || l.Over == nil || paramIdx(l.Over) < 0 {
+			continue
+		}
+		isElem := func(v ssa.Value) bool {
+			u, ok := v.(*ssa.UnOp)
+			if !ok {
+				return false
+			}
+			ia, ok := u.X.(*ssa.IndexAddr)
+			return ok && ia.X == l.Over && ia.Index == l.Index
+		}
+		ssau.ForEachInstr(fn, false, func(in ssa.Instruction) {
+			bc, ok := in.(*ssa.Call)
+			if !ok || !l.InLoop(bc.Block()) || bc.Common().IsInvoke() || paramIdx(bc.Common().Value) < 0 || len(bc.Common().Args) != 1 {
+				return
+			}
+			cell, ok := bc.Common().Args[0].(*ssa.Alloc)
+			if !ok || ssau.NamedOf(cell.Type()) != dbPkg+".fieldTF" {
+				return
+			}
+			readOK, writeOK, other := false, false, false
+			for _, ref := range *cell.Referrers() {
+				switch x := ref.(type) {
+				case *ssa.Store:
+					if x.Addr == ssa.Value(cell) {
+						if lk, ok := x.Val.(*ssa.Lookup); ok && isElem(lk.Index) && (x.Block() == bc.Block() || x.Block().Dominates(bc.Block())) {
+							readOK = true
+						} else {
+							other = true
+						}
+					}
+				case *ssa.UnOp:
+					for _, r2 := range *x.Referrers() {
+						if mu, ok := r2.(*ssa.MapUpdate); ok && mu.Value == ssa.Value(x) && isElem(mu.Key) && l.InLoop(mu.Block()) && (bc.Block() == mu.Block() || bc.Block().Dominates(mu.Block())) {
+							writeOK = true
+						}
+					}
+				case *ssa.Call:
+					if x != bc {
+						other = true
+					}
+				case *ssa.FieldAddr:
+					other = true
+				}
+			}
+			// every iteration reaches the call and the write-back
+			if readOK && writeOK && !other && bc.Block() == l.Body {
+				li, bi = paramIdx(l.Over), paramIdx(bc.Common().Value)
+			}
+		})
+	}
+	return
+}
+
+// c03BumpedField: v is a function (literal) of one *fieldTF parameter whose
+// whole effect is <param>.<field>++ for one field; the field's name.
+func c03BumpedField(v ssa.Value) string {
+	var g *ssa.Function
+	switch x := v.(type) {
+	case *ssa.Function:
+		g = x
+	case *ssa.MakeClosure:
+		g, _ = x.Fn.(*ssa.Function)
+	}
+	if g == nil || len(g.Blocks) != 1 || len(g.Params) != 1 || ssau.NamedOf(g.Params[0].Type()) != dbPkg+".fieldTF" {
+		return ""
+	}
+	name, n := "", 0
+	for _, in := range g.Blocks[0].Instrs {
+		switch x := in.(type) {
+		case *ssa.Store:
+			n++
+			fa, ok := x.Addr.(*ssa.FieldAddr)
+			if !ok || fa.X != ssa.Value(g.Params[0]) {
+				return ""
+			}
+			bo, ok := x.Val.(*ssa.BinOp)
+			if !ok || bo.Op != token.ADD {
+				return ""
+			}
+			if one, ok := ssau.ConstInt(bo.Y); !ok || one != 1 {
+				return ""
+			}
+			if ld, ok := bo.X.(*ssa.UnOp); !ok || ld.X != ssa.Value(fa) && !sameFieldAddr(ld.X, fa) {
+				return ""
+			}
+			name = ssau.FieldName(fa)
+		case *ssa.Call, *ssa.MapUpdate, *ssa.Go, *ssa.Defer:
+			return ""
+		}
+	}
+	if n != 1 {
+		return ""
+	}
+	return name
 }
 
 // c03PickedField: v is a function (literal) whose every result is the
